@@ -257,7 +257,13 @@ type server struct {
 	Fired    map[string]int
 	Requests []string // keys seen in this round, in arrival order
 	seen     map[string]int
-	cancel   context.CancelFunc
+	// cancel and midgrow act from one request on, in a canonical order of the requests of a
+	// round (position of the issue in the listing, page, stream) instead of arrival order: the
+	// importer fetches its three event streams concurrently and arrival order is Go's to decide
+	pre     *tracker // midgrow: the tracker as it was before it changed
+	listed  []int    // iids of the listing of this round, in order (from the first list request)
+	haveCut bool
+	cut     [3]int
 }
 
 type errTransport struct{}
@@ -266,13 +272,74 @@ func (errTransport) Error() string   { return "simulated: connection reset by pe
 func (errTransport) Timeout() bool   { return false }
 func (errTransport) Temporary() bool { return false }
 
-func (s *server) resetRound(f *fault, cancel context.CancelFunc) {
+func (s *server) resetRound(f *fault) {
 	s.mu.Lock()
 	s.Fault = f
-	s.cancel = cancel
 	s.Requests = nil
 	s.seen = map[string]int{}
+	s.pre, s.listed, s.haveCut = nil, nil, false
+	if f != nil && f.Kind == "midgrow" && f.Grow != nil {
+		s.pre = s.t.clone()
+		f.Grow()
+	}
 	s.mu.Unlock()
+}
+
+func (t *tracker) clone() *tracker {
+	c := *t
+	c.Users = map[int]*user{}
+	for k, u := range t.Users {
+		uc := *u
+		c.Users[k] = &uc
+	}
+	c.Issues = nil
+	for _, is := range t.Issues {
+		ic := *is
+		ic.Notes = append([]note(nil), is.Notes...)
+		ic.Labels = append([]labelEv(nil), is.Labels...)
+		ic.States = append([]stateEv(nil), is.States...)
+		c.Issues = append(c.Issues, &ic)
+	}
+	return &c
+}
+
+func updatedAfter(req *http.Request) int64 {
+	if v := req.URL.Query().Get("updated_after"); v != "" {
+		if tm, err := time.Parse(time.RFC3339Nano, v); err == nil {
+			return tm.Unix()
+		}
+	}
+	return 0
+}
+
+// position of a request in the canonical order of a round; ok=false for requests that have
+// none (user look-ups: they neither change with the tracker nor carry the context).
+func (s *server) position(path string, page int) (pos [3]int, ok bool) {
+	parts := strings.Split(strings.Trim(path, "/"), "/")
+	switch {
+	case len(parts) == 3 && parts[2] == "issues":
+		return [3]int{(page - 1) * s.pageSize, 0, 0}, true
+	case len(parts) == 5 && parts[2] == "issues":
+		iid, _ := strconv.Atoi(parts[3])
+		idx := 1 << 30
+		for i, x := range s.listed {
+			if x == iid {
+				idx = i
+			}
+		}
+		stream := map[string]int{"notes": 1, "resource_label_events": 2, "resource_state_events": 3}[parts[4]]
+		return [3]int{idx, page, stream}, true
+	}
+	return pos, false
+}
+
+func posLess(a, b [3]int) bool {
+	for i := 0; i < 3; i++ {
+		if a[i] != b[i] {
+			return a[i] < b[i]
+		}
+	}
+	return false
 }
 
 func jsonResponse(req *http.Request, status int, body []byte, hdr map[string]string) *http.Response {
@@ -308,7 +375,40 @@ func (s *server) RoundTrip(req *http.Request) (*http.Response, error) {
 	if err := req.Context().Err(); err != nil {
 		return nil, err
 	}
-	if s.Fault != nil && s.Fault.Key == key {
+	t := s.t
+	if s.Fault != nil && (s.Fault.Kind == "midgrow" || s.Fault.Kind == "cancel") {
+		if s.listed == nil && strings.HasSuffix(path, "/issues") {
+			src := s.t
+			if s.pre != nil {
+				src = s.pre
+			}
+			after := updatedAfter(req)
+			s.listed = []int{}
+			for _, is := range src.Issues {
+				if is.Updated >= after {
+					s.listed = append(s.listed, is.IID)
+				}
+			}
+			fk := s.Fault.Key
+			fpage := 1
+			if i := strings.Index(fk, "?page="); i >= 0 {
+				fpage, _ = strconv.Atoi(fk[i+6:])
+				fk = fk[:i]
+			}
+			s.cut, s.haveCut = s.position(fk, fpage)
+		}
+		pos, ok := s.position(path, page)
+		atOrAfter := ok && s.haveCut && !posLess(pos, s.cut)
+		if atOrAfter {
+			s.Fired[s.Fault.Kind]++
+		}
+		switch {
+		case s.Fault.Kind == "cancel" && atOrAfter:
+			return nil, context.Canceled
+		case s.Fault.Kind == "midgrow" && !atOrAfter && s.pre != nil && ok:
+			t = s.pre
+		}
+	} else if s.Fault != nil && s.Fault.Key == key {
 		kind := s.Fault.Kind
 		fire := s.seen[key] == 1 || kind == "500-persistent"
 		if fire {
@@ -322,19 +422,10 @@ func (s *server) RoundTrip(req *http.Request) (*http.Response, error) {
 				return jsonResponse(req, 404, []byte(`{"message":"404 Not Found"}`), nil), nil
 			case "bad-json":
 				return jsonResponse(req, 200, []byte(`[{"id": "this is not`), map[string]string{"X-Page": "1", "X-Total-Pages": "1"}), nil
-			case "midgrow":
-				if s.seen[key] == 1 && s.Fault.Grow != nil {
-					s.Fault.Grow()
-				}
-			case "cancel":
-				if s.cancel != nil {
-					s.cancel()
-				}
-				return nil, context.Canceled
 			}
 		}
 	}
-	status, body, hdr := s.serve(path, req, page)
+	status, body, hdr := s.serve(t, path, req, page)
 	if s.Fault != nil && s.Fault.Key == key && s.Fault.Kind == "truncated" && s.seen[key] == 1 && len(body) > 4 {
 		s.Fired["truncated"]++
 		body = body[:len(body)/2]
@@ -364,8 +455,7 @@ func (s *server) paginate(n, page int) (lo, hi int, hdr map[string]string) {
 	return
 }
 
-func (s *server) serve(path string, req *http.Request, page int) (int, []byte, map[string]string) {
-	t := s.t
+func (s *server) serve(t *tracker, path string, req *http.Request, page int) (int, []byte, map[string]string) {
 	parts := strings.Split(strings.Trim(path, "/"), "/")
 	notFound := func() (int, []byte, map[string]string) { return 404, []byte(`{"message":"404 Not Found"}`), nil }
 	switch {
@@ -378,14 +468,7 @@ func (s *server) serve(path string, req *http.Request, page int) (int, []byte, m
 		b, _ := json.Marshal(t.userJSON(id))
 		return 200, b, nil
 	case len(parts) == 3 && parts[0] == "projects" && parts[2] == "issues":
-		after := int64(0)
-		if v := req.URL.Query().Get("updated_after"); v != "" {
-			if tm, err := time.Parse(time.RFC3339, v); err == nil {
-				after = tm.Unix()
-			} else if tm, err := time.Parse("2006-01-02T15:04:05.999999999Z07:00", v); err == nil {
-				after = tm.Unix()
-			}
-		}
+		after := updatedAfter(req)
 		var sel []*issue
 		for _, is := range t.Issues {
 			if is.Updated >= after {
